@@ -672,7 +672,7 @@ def selectors(F, f, depth=0):
     return out - {"m_tables"}
 
 
-def rule_merge(F, R):
+def rule_merge(F, R, rule="R-C10-8"):
     n = 0
     for f in sorted(F.functions.values(), key=lambda f: f.key):
         if f.name != "try_merge" or not f.relfile.startswith("src/wlearner/") or f.body is None or f.cls == "nano::wlearner_t":
@@ -681,7 +681,7 @@ def rule_merge(F, R):
         cls = f.cls
         pred = [g for g in F.functions.values() if g.name == "do_predict" and g.cls == cls and not g.is_lambda]
         if not pred:
-            R.incomplete("R-C10-8", cls, f.loc(), "do_predict of %s not found" % cls)
+            R.incomplete(rule, cls, f.loc(), "do_predict of %s not found" % cls)
             continue
         sel = selectors(F, pred[0])
         compared = set()
@@ -724,18 +724,18 @@ def rule_merge(F, R):
             ok = okd and ta == "m_tables"
             why = "do_try_merge no longer guards the addition by equal feature and table shape" if not okd else "the other learner's tables are not what is added"
         missing = sorted(sel - compared)
-        R.check(ok and not missing, "R-C10-8", cls.split("::")[-1], f.loc(), "tables are added only when %s compared equal" % sorted(sel),
+        R.check(ok and not missing, rule, cls.split("::")[-1], f.loc(), "tables are added only when %s compared equal" % sorted(sel),
                 why if not ok else "learners are merged although %s (which select%s the table a sample uses) may differ: the merged learner no longer predicts the sum" % (missing, "" if len(missing) > 1 else "s"))
-    R.floor("R-C10-8", n, 2, "try_merge overrides")
+    R.floor(rule, n, 2, "try_merge overrides")
     # learners without an override are never merged
     base = F.one("nano::wlearner_t::try_merge", "src/wlearner.cpp")
     rets = [x for x in base.nodes() if x["k"] == "return"]
-    R.check(len(rets) == 1 and pp(rets[0]["c"][0]) == "false", "R-C10-8", "default", base.loc(), "learners without a merge rule are kept apart", "the default try_merge merges")
+    R.check(len(rets) == 1 and pp(rets[0]["c"][0]) == "false", rule, "default", base.loc(), "learners without a merge rule are kept apart", "the default try_merge merges")
     mg = F.one("nano::wlearner::merge", "src/wlearner/util.cpp")
     nulls = [x for x in mg.nodes() if assignment(x) and pp(assignment(x)[0]) == "wlearners[j]" and pp(assignment(x)[1]) in ("nullptr", "unique_ptr(nullptr)")]
     guards = [x for x in mg.nodes() if x["k"] == "if" and pp(x["c"][x["r"].index("cond")]) .replace("->", ".") == "wlearners[i].try_merge(wlearners[j])"]
     ok = len(nulls) == 1 and len(guards) == 1 and any(y is nulls[0] for y in walk(guards[0]["c"][guards[0]["r"].index("then")]))
-    R.check(ok, "R-C10-8", "merge driver", mg.loc(), "a learner is dropped only after it was merged into another", "merge() drops learners that were not merged")
+    R.check(ok, rule, "merge driver", mg.loc(), "a learner is dropped only after it was merged into another", "merge() drops learners that were not merged")
 
 
 def run(ctx):
